@@ -59,6 +59,9 @@ pub enum Role {
     Pex {
         words: [Word; 4],
         target: Option<usize>,
+        /// a second lookup in the same VM (same lazily initialised cache)
+        words2: [Word; 4],
+        target2: Option<usize>,
     },
     /// fails on purpose
     Fail(u8),
@@ -120,6 +123,9 @@ pub struct GenCfg {
     pub beacons: bool,
     pub soup: bool,
     pub pex: bool,
+    /// at least two solutions solving two different predicates, and a PredicateExists node in
+    /// every predicate (so that lookups can be aimed at solutions that exist)
+    pub pex_heavy: bool,
 }
 
 impl GenCfg {
@@ -143,7 +149,8 @@ impl GenCfg {
             faults: false,
             beacons: rng.chance(3, 4),
             soup: rng.chance(1, 8),
-            pex: rng.chance(1, 6),
+            pex: rng.chance(1, 3),
+            pex_heavy: false,
         }
     }
 }
@@ -225,8 +232,12 @@ pub fn gen_abstract(rng: &mut Rng, cfg: &GenCfg) -> Abstract {
         }
     }
 
-    let n_sols = 1 + rng.usize(cfg.max_sols);
-    let n_preds = 1 + rng.usize(n_sols.min(3));
+    let mut n_sols = 1 + rng.usize(cfg.max_sols);
+    let mut n_preds = 1 + rng.usize(n_sols.min(3));
+    if cfg.pex_heavy {
+        n_sols = n_sols.max(2);
+        n_preds = n_preds.max(2);
+    }
 
     // solutions first (reads want to aim at their mutations)
     let mut sols: Vec<ASol> = Vec::new();
@@ -352,6 +363,13 @@ pub fn gen_abstract(rng: &mut Rng, cfg: &GenCfg) -> Abstract {
                         Role::Check { slot: n_slots }
                     }
                 }
+            } else if cfg.pex_heavy && !roles.iter().any(|r| matches!(r, Role::Pex { .. })) {
+                Role::Pex {
+                    words: [rng.word(), rng.word(), rng.word(), rng.word()],
+                    target: Some(rng.usize(n_sols)),
+                    words2: [rng.word(), rng.word(), rng.word(), rng.word()],
+                    target2: if rng.chance(1, 2) { Some(rng.usize(n_sols)) } else { None },
+                }
             } else {
                 match rng.below(14) {
                     0 | 1 | 2 if cfg.post_reads => Role::Read(read_spec(rng, true, ci, &sols)),
@@ -378,6 +396,8 @@ pub fn gen_abstract(rng: &mut Rng, cfg: &GenCfg) -> Abstract {
                     8 if cfg.pex => Role::Pex {
                         words: [rng.word(), rng.word(), rng.word(), rng.word()],
                         target: if rng.chance(2, 3) { Some(rng.usize(n_sols)) } else { None },
+                        words2: [rng.word(), rng.word(), rng.word(), rng.word()],
+                        target2: if rng.chance(2, 3) { Some(rng.usize(n_sols)) } else { None },
                     },
                     9 | 10 => Role::Append {
                         stack_words: rng.usize(4),
@@ -572,8 +592,12 @@ pub fn node_program(abs: &Abstract, pi: usize, a: usize) -> Vec<Op> {
             }
             v.push(PUSH(t));
         }
-        Role::Pex { words: h, .. } => {
+        Role::Pex { words: h, words2: h2, .. } => {
             for w in h {
+                v.push(PUSH(*w));
+            }
+            v.push(PEX());
+            for w in h2 {
                 v.push(PUSH(*w));
             }
             v.push(PEX());
@@ -792,12 +816,14 @@ pub fn finalize_with_pex(abs: &mut Abstract, numberings: &[Numbering]) {
     let mut any = false;
     for pi in 0..abs.preds.len() {
         for a in 0..abs.preds[pi].roles.len() {
-            if let Role::Pex { target, .. } = &mut abs.preds[pi].roles[a] {
-                if let Some(t) = *target {
-                    if t >= abs.sols.len() || abs.sols[t].pred == pi {
-                        *target = None;
-                    } else {
-                        any = true;
+            if let Role::Pex { target, target2, .. } = &mut abs.preds[pi].roles[a] {
+                for tg in [target, target2] {
+                    if let Some(t) = *tg {
+                        if t >= abs.sols.len() || abs.sols[t].pred == pi {
+                            *tg = None;
+                        } else {
+                            any = true;
+                        }
                     }
                 }
             }
@@ -813,8 +839,13 @@ pub fn finalize_with_pex(abs: &mut Abstract, numberings: &[Numbering]) {
         let m = w.materialize();
         for pi in 0..abs.preds.len() {
             for a in 0..abs.preds[pi].roles.len() {
-                if let Role::Pex { words, target: Some(t) } = &mut abs.preds[pi].roles[a] {
-                    *words = pex_words(&m, *t);
+                if let Role::Pex { words, target, words2, target2 } = &mut abs.preds[pi].roles[a] {
+                    if let Some(t) = target {
+                        *words = pex_words(&m, *t);
+                    }
+                    if let Some(t) = target2 {
+                        *words2 = pex_words(&m, *t);
+                    }
                 }
             }
         }
